@@ -4,7 +4,7 @@ import random
 from harness import common as C
 
 RULE_FILES = ["Rules/RealPrelude.v", "Rules/ScalarRules.v", "Rules/Complex.v", "Containers/VSpace.v",
-              "Containers/VSpaceProof.v", "Array/Broadcast.v", "Array/Run01.v", "Array/MatMul.v"]
+              "Containers/VSpaceProof.v", "Array/Broadcast.v", "Array/Run01.v", "Array/MatMul.v", "Array/Index.v", "Array/Select.v", "Array/RunSel.v"]
 IMPORTS = ("From Coq Require Import List ZArith.\nImport ListNotations.\n"
            "From AG Require Import VSpace VSpaceProof Broadcast Run01 MatMul.\nLocal Open Scope Z_scope.\n")
 
@@ -95,6 +95,33 @@ def term_mm(c):
                zll(c["vjpA"]), zll(c["vjpB"]), zll(c["jvp"]), C.cbool(c["ok"])))
 
 
+def term_sel(c):
+    zl = lambda l: C.clist([C.cz(x) for x in l])  # noqa: E731
+    sel = C.clist(["None" if e is None else "(Some (%s, %s))" % (C.cnat(e[0]), C.cz(e[1])) for e in c["sel"]])
+    jv = "None" if c["jvp"] is None else "(Some %s)" % zl(c["jvp"])
+    return ("{| q_n := %s; q_sel := %s; q_consts := %s; q_x := %s; q_y := %s; q_v := %s; q_y2 := %s; q_g := %s; q_vjp := %s; "
+            "q_jvp := %s; q_ok := %s |}" % (C.cnat(c["n"]), sel, zl(c["consts"]), zl(c["x"]), zl(c["y"]), zl(c["v"]), zl(c["y2"]),
+                                            zl(c["g"]), zl(c["vjp"]), jv, C.cbool(c["ok"])))
+
+
+def run_select(res, tag, seed):
+    """selection primitives: the model's scatter / gather against the implementation's VJP / JVP, configuration by configuration"""
+    out, err = C.run_impl("impl_select.py", {"seed": seed})
+    if out is None:
+        return [], [], err
+    cases = out["cases"]
+    for k, v in out["dist"].items():
+        res.count(k, v)
+    codes = C.coq_eval(tag + "_sel", IMPORTS.replace("MatMul.", "MatMul Select RunSel."), "", [term_sel(c) for c in cases], "checksel")
+    res.add_cases(len(cases), [("sel", c["prim"], c["tag"]) for c in cases],
+                  [{"primitive": c["prim"], "configuration": c["tag"], "selection": c["sel"][:6]} for c in cases[:1]])
+    bad = [dict(c, site={"primitive": c["prim"]}, primitive=c["prim"], configuration=c["tag"],
+                what="selection primitive: the implementation's VJP/JVP is not the scatter/gather of its own selection")
+           for c, k in zip(cases, codes) if k == 2]
+    tie = [c for c, k in zip(cases, codes) if k == 1]
+    return bad, tie, None
+
+
 def run_bcast(res, tag, seed, n):
     out, err = C.run_impl("impl_bcast.py", {"cases": bcast_cases(seed, n), "sums": sum_cases(seed, 2 * n), "mms": mm_cases(seed, n)})
     if out is None:
@@ -120,7 +147,10 @@ def run_bcast(res, tag, seed, n):
     res.count("broadcast-pairs", len(cases))
     bad = [dict(c, site={"primitive": "unbroadcast"}) for c, k in zip(cases, codes) if k == 2] + sbad + mbad
     tie = [c for c, k in zip(cases, codes) if k == 1] + stie + mtie
-    return bad, tie, None
+    qbad, qtie, qerr = run_select(res, tag, seed)
+    if qerr:
+        return bad, tie, qerr
+    return bad + qbad, tie + qtie, None
 
 
 def run_oracle(res, props, tier, seed, only=None):
@@ -141,6 +171,11 @@ def run(res, tier, seed, broken, props, with_bcast):
         bad, tie = bad + b, tie + t
         if err:
             broken = broken + [{"obligation": "broadcast correspondence failed to run", "log": err[-3000:]}]
+    elif "C02" in props:
+        b, t, err = run_select(res, "sel_" + props[0].lower(), seed)
+        bad, tie = bad + b, tie + t
+        if err:
+            broken = broken + [{"obligation": "selection-primitive correspondence failed to run", "log": err[-3000:]}]
     ob, err = run_oracle(res, props, tier, seed)
     if err:
         broken = broken + [{"obligation": "implementation oracle failed to run", "log": err[-3000:]}]
